@@ -14,7 +14,7 @@ RULE = ("fmap: 64 (element, result) type pairs (every element type of C13/C14 wi
         "invalid encodings (lone continuation bytes, truncated sequences, overlong forms, surrogates, > U+10FFFF, 0xFF, random byte "
         "strings); join: per element type nil, empty, [nil], [empty], nested empties, every pool list alone, random lists of 2-4 inner "
         "lists with nil / empty members, the same inner list twice, a first inner list with spare capacity for all that follows, and inner lists that are prefix views of ONE backing array (built so that the spare region is real); joins: nil, empty, every pool string alone, random lists; the input as "
-        "observed after the call and whether the result shares memory with an input are part of the specified answer; distinct = distinct op lines whose containers hold >= 2 elements in total")
+        "observed after the call and whether the result shares memory with an input are part of the specified answer; two extra derive packages import user packages named strings / sort / bytes (corpus/ext2/..., with a Join that is not concatenation, sorts that sort nothing, Equal/Compare constants) and use their types before resp. after the generated code needs the standard packages, so a captured import alias shows as a wrong answer or a compile failure; distinct = distinct op lines whose containers hold >= 2 elements in total")
 
 
 def run(rep):
